@@ -58,7 +58,7 @@ Feed3(e1, e2, e3) == LET r1 == TGApply(pst, Stamp(e1))
 
 Boot == [K EXCEPT !.ready = <<HStep(Root)>>]
 H(t, c, a, b, d) == [w |-> "t", t |-> t, c |-> c, a |-> a, b |-> b, d |-> d, at |-> K.nh]
-HE(t, c) == [w |-> "e", t |-> t, c |-> c, a |-> 0, b |-> 0, d |-> 0, at |-> K.nh]
+HE(t, c) == [w |-> "e", t |-> t, c |-> c, a |-> 0, b |-> 0, d |-> 0, at |-> K.nh, cyc |-> K.cycle]
 
 ExcName(r) == IF ~IsExc(r) THEN "none" ELSE IF IsAnyioCancel(r) THEN "cancel"
               ELSE IF IsCancel(r) THEN "native" ELSE "err"
